@@ -39,7 +39,7 @@ func OpenJobsHub(dir string, knobs map[string]int64) (h *Hub, err error) {
 	}()
 	env := newEnv(dir, knobs)
 	env.RunnerConfig = &conf.RunnerConfig{PoolIncremental: int(knobOr(knobs, "poolIncr", 4)), PoolFull: int(knobOr(knobs, "poolFull", 2)), Concurrent: 1}
-	h = &Hub{Dir: dir, Env: env, Full: &FullHub{}}
+	h = &Hub{Dir: dir, Env: env, Full: &FullHub{}, Logs: lastObserved}
 	h.Full.Bus, err = server.NewBus(env)
 	if err != nil {
 		return nil, err
